@@ -474,6 +474,8 @@ structure Store where
   defaultKind : Option Kind          -- ModelInterface.add_variable: `dtype=None` means `self.dtype`
   extraSize : Nat                    -- BaseLinker: Σ submodel.size
   extraBytes : Nat                   -- BaseLinker: Σ submodel.nbytes
+  extraKeys : List Name := []        -- further `__dict__` keys that are neither a variable's storage nor listed in
+                                     -- `_attributes` (BaseLinker: submodels, name, _LAGS, _LEADS; AliasMixin: aliases, …)
   deriving Repr, Inhabited
 
 def Store.n (s : Store) : Nat := s.span.length
@@ -486,6 +488,12 @@ def setVar : List (Name × Series) → Name → Series → List (Name × Series)
   | (m, x) :: rest, name, ser => if m == name then (m, ser) :: rest else (m, x) :: setVar rest name ser
 
 def Store.put (s : Store) (name : Name) (ser : Series) : Store := { s with vars := setVar s.vars name ser }
+
+/-- The keys of the instance `__dict__`: a variable `X` is stored under `_X`; every entry of the attribute list is
+    stored under its own name (this includes the container's own `span`, `index`, `_attributes`, `_strict`) except
+    the class properties `strict` / `values`, whose first use is only recorded in the list; plus `extraKeys`. -/
+def Store.dictKeys (s : Store) : List Name :=
+  s.index.map ("_" ++ ·) ++ s.attrs.filter (fun a => a != "strict" && a != "values") ++ s.extraKeys
 
 def firstIdx : List Nat → Nat → Option Nat
   | [], _ => none
@@ -551,17 +559,21 @@ structure Cfg where
   strictExempt : List Name
   /-- `add_variable` refuses the name of an existing attribute (as shipped: only `index` is checked). -/
   addVarChecksAttrs : Bool
+  /-- `add_variable(name)` refuses a name whose storage key `'_' + name` is already in `__dict__` (as shipped: it
+      overwrites that entry — `attributes` / `strict` clobber the container's own `_attributes` / `_strict`). -/
+  addVarChecksKeys : Bool
   deriving Repr, DecidableEq, Inhabited
 
 /-- The code at the pinned commit. -/
-def Cfg.shipped : Cfg := ⟨false, ["strict"], false⟩
+def Cfg.shipped : Cfg := ⟨false, ["strict"], false, false⟩
 
 /-- The code with the three candidate fixes applied. -/
-def Cfg.fixed : Cfg := ⟨true, ["strict", "values"], true⟩
+def Cfg.fixed : Cfg := ⟨true, ["strict", "values"], true, true⟩
 
 /-- What the tree under test does now (reflected). -/
 def Cfg.current : Cfg :=
-  ⟨Generated.containerSetattrFullShape, Generated.containerStrictExempt, Generated.containerAddVariableChecksAttrs⟩
+  ⟨Generated.containerSetattrFullShape, Generated.containerStrictExempt, Generated.containerAddVariableChecksAttrs,
+   Generated.containerAddVariableChecksKeys⟩
 
 inductive Op where
   | addVariable (name : Name) (v : Operand) (dtype : Option Kind)
@@ -614,6 +626,7 @@ def effKind (s : Store) (dtype : Option Kind) : Option Kind :=
 def addVariable (cfg : Cfg) (s : Store) (name : Name) (v : Operand) (dtype : Option Kind) : Store × Outcome :=
   if s.index.contains name then (s, .raised .duplicateName)
   else if cfg.addVarChecksAttrs && s.attrs.contains name then (s, .raised .duplicateName)
+  else if cfg.addVarChecksKeys && s.dictKeys.contains ("_" ++ name) then (s, .raised .duplicateName)
   else
     match newArray s.n v with
     | .error e => (s, .raised e)
